@@ -297,11 +297,18 @@ def fits_nssgrid_writer(grid, filename, **kwargs):
     primary = fits.PrimaryHDU(grid.data, fits.Header(grid.meta))
     primary.add_checksum()
 
+    # FITS binary tables have no signed-byte column type: astropy would store an
+    # int8 axis as a logical column. Widen such an axis to 16-bit integers.
+    axes = [
+        np.asarray(axis).astype(np.int16) if np.asarray(axis).dtype == np.int8 else axis
+        for axis in grid.axes
+    ]
+
     hdus = [
         fits.BinTableHDU(
             AstropyTable([axis], names=[name], meta={"AXIS": name}), name=name
         )
-        for axis, name in zip(grid.axes, grid.axis_names)
+        for axis, name in zip(axes, grid.axis_names)
     ]
 
     for h in hdus:
